@@ -2,7 +2,8 @@
 
    Float outputs of the implementation are compared as the integer quantum they encode: the harness inverts the float
    ((value - offset) / quantum, exact rational arithmetic, residual bounded) and the model value is inverted the same
-   way here; rows of a supplied array beyond the input length are compared exactly. *)
+   way here, with the DOCUMENTED quantum and offset of Spec.v (not the generated scales); rows of a supplied array beyond
+   the input length are compared exactly. *)
 From Coq Require Import ZArith QArith List Bool.
 From Abacus.Common Require Import Arr Num Corr.
 From Abacus.C04 Require Import Spec Gen Model.
@@ -51,8 +52,8 @@ Definition run_rv (c : rv_case) : val :=
   let '(box, words, pc, vc, extra, sent) := c in
   let n := length words in
   vres (fun '(rp, rv, bp, bv) =>
-          VL [vret 0 (rv_posscale box) rp; vret 0 rv_velscale rv;
-              vbuf 0 (rv_posscale box) n bp; vbuf 0 rv_velscale n bv])
+          VL [vret 0 (pos_quantum box) rp; vret 0 vel_quantum rv;
+              vbuf 0 (pos_quantum box) n bp; vbuf 0 vel_quantum n bv])
        (unpack_rvint words box (mksel pc n extra sent) (mksel vc n extra sent)).
 
 (* the property on the model: every requested output is the documented decoding (used by the failing-input search) *)
@@ -78,7 +79,7 @@ Definition run_pid (c : pid_case) : val :=
   let p := default 1 ppd in
   vres (fun outs => VL (map (fun o => match o with
                                       | None => VNone
-                                      | Some buf => VL (flat_map (quanta_row (- (aux_half b p)) (aux_inv_ppd b p)) buf)
+                                      | Some buf => VL (flat_map (quanta_row (- (b / (2 # 1))) (b / inject_Z p)) buf)
                                       end) outs))
        (unpack_pids packed box ppd (flags_of fl)).
 
